@@ -125,7 +125,10 @@ def cli_vectors(ctx, gate_topa):
     per = ["variants", "--msa", "@one.fa", "--reference", "ref", "-a", "@same.gff"]
     add("variants-gff-same-start", per + ["-t", "2"], base=per + ["-t", "1"], r=max(reps, 10), sig="variants-gff-same-start")
     add("variants-gff-same-start-aggregate", per + ["--aggregate"], r=max(reps, 10), sig="variants-gff-same-start")
-    # the race detector on the binary, jittered
+    # the race detector on the binary, jittered (quick: the two commands with the most shared state)
+    if quick:
+        for args in (["variants", "--msa", "@m.fa", "-a", "@a.gb", "-t", "4"], ["sam", "variants", "-s", "@in.sam", "-r", "@ref.fa", "-a", "@a.gb", "-t", "4"]):
+            add("race/" + args[0] + "-" + args[1], args, env={"VHOOK_JITTER": str(ctx.seed)}, r=2, race=True, sig="race")
     if not quick:
         for args in (topa + ["-t", "4"], ["closest", "--query", "@m.fa", "--target", "@m.fa", "-t", "4"],
                      ["variants", "--msa", "@m.fa", "-a", "@a.gb", "-t", "4"],
@@ -153,7 +156,7 @@ def run(ctx):
     res = ctx.tlc("Aggregate", "MC_Aggregate_AsCoded.cfg", workers=4, expect_violation=True, tag="agg_ascoded", count=False)
     if "Deterministic" not in res["violations"]:
         raise Machinery("the original (non-total) aggregate sort key no longer violates Deterministic: model drifted")
-    ctx.build(race=not quick)
+    ctx.build(race=True)
     gates = kernel.tlc_gen(ctx, "GenPipeline", "GenPipeline_quick.cfg" if quick else "GenPipeline.cfg", timeout=3000)
     gate_inproc = [dict(g, fam="pipe", sig=g["cmd"]) for g in gates if g["cmd"] != "topa"]
     gate_topa = [g for g in gates if g["cmd"] == "topa"]
